@@ -1368,3 +1368,241 @@ Proof.
   split; [exact T|]. split; [exact I|]. split; [lia|]. split; [exact O|]. split; [exact R|]. split; [exact ND|].
   intros x Hx. apply H, Hx.
 Qed.
+
+(* ---- the prediction read off a cost object equals the tree's own figures ---- *)
+Lemma tree_rows_sizes n sl t :
+  map r_size (tree_rows n sl t) = map (fun bt => node_size n sl (fst bt) (snd bt)) (traverse_dfs t).
+Proof. unfold tree_rows. rewrite map_map. reflexivity. Qed.
+
+Lemma multiplicity_slice_all n sl0 xs :
+  multiplicity n (sl0 ++ slice_all xs) = multiplicity n sl0 * zprod (map (fun x => zget x (szd n)) xs).
+Proof.
+  unfold multiplicity, slice_all. rewrite map_app, zprod_app, map_map. reflexivity.
+Qed.
+
+Lemma zmax_list_opt l : (forall x, In x l -> 0 <= x) ->
+  zmax_list l 0 = match list_max_opt l with Some m => m | None => 0 end.
+Proof.
+  destruct l as [|a l]; intros H; [reflexivity|]. unfold zmax_list. cbn [fold_left list_max_opt].
+  rewrite Z.max_r by (apply H; left; reflexivity). reflexivity.
+Qed.
+
+Theorem prediction_is_real n sl0 t xs c : (forall j, 0 < zget j (szd n)) ->
+  Inv c -> c_tab c = tree_rows n (sl0 ++ slice_all xs) t ->
+  c_nsl c = zprod (map (fun x => zget x (szd n)) xs) ->
+  (* number of slices, on top of the incoming tree's *)
+  c_nsl c * multiplicity n sl0 = multiplicity n (sl0 ++ slice_all xs) /\
+  (* total cost, in units of the incoming tree's multiplicity *)
+  cc_total_flops c * multiplicity n sl0 = total_flops n (sl0 ++ slice_all xs) t /\
+  (* largest intermediate *)
+  cc_size c = list_max_opt (map (fun bt => node_size n (sl0 ++ slice_all xs) (fst bt) (snd bt)) (traverse_dfs t)) /\
+  match cc_size c with Some s => s | None => 0 end = max_size n (sl0 ++ slice_all xs) t.
+Proof.
+  intros Hpos (Hrows & Hsp & HND & Dfl & Dmc & _) Htab Hnsl.
+  assert (Em : c_nsl c * multiplicity n sl0 = multiplicity n (sl0 ++ slice_all xs))
+    by (rewrite multiplicity_slice_all, Hnsl; ring).
+  assert (Es : cc_size c = list_max_opt (map (fun bt => node_size n (sl0 ++ slice_all xs) (fst bt) (snd bt)) (traverse_dfs t))).
+  { rewrite <- tree_rows_sizes, <- Htab. apply (is_max_opt_unique _ _ (map r_size (c_tab c))).
+    - apply mc_inv_max, Dmc.
+    - apply list_max_opt_spec. }
+  split; [exact Em|]. split; [|split; [exact Es|]].
+  - unfold cc_total_flops, total_flops. rewrite <- Em, Dfl, Htab, tree_rows_flops. ring.
+  - rewrite Es. unfold max_size. symmetry. apply zmax_list_opt.
+    intros x Hx. apply in_map_iff in Hx. destruct Hx as (bt & <- & _).
+    unfold node_size. pose proof (size_of_pos (szd n) (lkeys (node_legs n (sl0 ++ slice_all xs) (fst bt) (snd bt))) Hpos). lia.
+Qed.
+
+(* an index that remove accepts is involved in some contraction of the current table *)
+Lemma remove_some_involved x c c1 : Inv c -> remove x c = Some c1 ->
+  exists r, In r (c_tab c) /\ In x (r_inv r).
+Proof.
+  intros (_ & _ & _ & _ & _ & Dne & Dj) Hrem. unfold remove in Hrem.
+  destruct (zd_get x (c_sd c)) as [d|] eqn:Ed; [|discriminate]. cbn [c_where set_nsl] in Hrem.
+  destruct (wh_get x (c_where c)) as [is|] eqn:Ew; [|discriminate].
+  assert (Hk : In x (zd_keys (c_sd c))) by (apply zd_get_in_keys; congruence).
+  destruct (Dj x Hk) as (_ & _ & _ & Win). unfold wh_get0 in Win. rewrite Ew in Win.
+  pose proof (Dne (x, is) (wh_get_in x _ is Ew)) as Hne. cbn in Hne.
+  destruct is as [|i is]; [congruence|].
+  destruct (proj1 (Win i) (or_introl eq_refl)) as (r & Hn & Hin).
+  exists r. split; [apply (nth_error_In _ _ Hn)|exact Hin].
+Qed.
+
+Lemma remove_seq_app_inv a : forall b c c', remove_seq (a ++ b) c = Some c' ->
+  exists ca, remove_seq a c = Some ca /\ remove_seq b ca = Some c'.
+Proof.
+  induction a as [|x a IH]; intros b c c' H; cbn [app remove_seq] in *.
+  - exists c. split; [reflexivity|exact H].
+  - destruct (remove x c) as [c1|]; [|discriminate]. apply IH, H.
+Qed.
+
+Lemma remove_seq_snoc a x c ca c' : remove_seq a c = Some ca -> remove x ca = Some c' ->
+  remove_seq (a ++ [x]) c = Some c'.
+Proof.
+  revert c. induction a as [|y a IH]; intros c H1 H2; cbn [app remove_seq] in *.
+  - injection H1 as ->. rewrite H2. reflexivity.
+  - destruct (remove y c) as [c1|]; [|discriminate]. apply IH; assumption.
+Qed.
+
+(* removed indices do not occur in the tree's rows *)
+Lemma sub_legs_not_removed n sl t j : In j (lkeys (sub_legs n sl t)) -> ~ In j (removed sl).
+Proof.
+  induction t as [k|l IHl r IHr]; cbn [sub_legs].
+  - rewrite leaf_legs_filter_form. intros H. apply lkeys_filter_incl in H.
+    apply (proj1 (legs_of_term_in _ _)) in H. unfold term_sl in H. apply filter_In in H. destruct H as [_ H].
+    apply memb_false. destruct (memb j (removed sl)); [discriminate|reflexivity].
+  - intros H. apply lkeys_filter_incl in H. apply legs_union2_in in H. destruct H; auto.
+Qed.
+
+Lemma tree_rows_not_removed n sl t r j : In r (tree_rows n sl t) -> In j (r_inv r) -> ~ In j (removed sl).
+Proof.
+  unfold tree_rows. intros Hr Hj. apply in_map_iff in Hr. destruct Hr as (bt & <- & _).
+  unfold row_of in Hj. cbn [r_inv fst] in Hj. destruct (snd bt) as [k|l r']; cbn [involved] in Hj; [destruct Hj|].
+  apply legs_union2_in in Hj. destruct Hj as [H|H]; apply (sub_legs_not_removed _ _ _ _ H).
+Qed.
+
+Theorem removed_never_again n sl0 t : tree_ok n sl0 t -> sd_pos (szd n) -> NoDup (zd_keys (szd n)) ->
+  forall xs c, remove_seq xs (costs_of_tree n sl0 t) = Some c ->
+  forall x, In x xs -> ~ In x (removed sl0).
+Proof.
+  intros Hok Hpos HND xs c Hseq x Hx.
+  destruct (in_split _ _ Hx) as (a & b & ->).
+  destruct (remove_seq_app_inv a (x :: b) _ c Hseq) as (ca & Ha & Hb). cbn [remove_seq] in Hb.
+  destruct (remove x ca) as [c1|] eqn:Er; [|discriminate].
+  destruct (costs_remove_eq_tree_remove n sl0 t Hok Hpos HND a ca Ha) as (T & I & _).
+  destruct (remove_some_involved x ca c1 I Er) as (r & Hr & Hin). rewrite T in Hr.
+  pose proof (tree_rows_not_removed n _ t r x Hr Hin) as Hn.
+  intros Hx0. apply Hn. unfold removed. rewrite map_app, in_app_iff. left. exact Hx0.
+Qed.
+
+(* ================================================================== *)
+(* Part 4: SliceFinder.trial / best / search, for every oracle           *)
+Definition entry_ok (fd : finder) (e : list ix * costs) : Prop :=
+  exists xs, remove_seq xs (f_cost0 fd) = Some (snd e) /\ (forall j, In j (fst e) <-> In j xs) /\
+             (forall j, In j xs -> ~ In j (f_forbidden fd)).
+Definition cache_ok (fd : finder) (ch : cache) : Prop := Forall (entry_ok fd) ch.
+(* every accepted cost respects the overhead limit *)
+Definition over_ok (fd : finder) (c : costs) : Prop := forall t, f_tover fd = Some t -> over_gt c t = false.
+
+Lemma list_eqb_nat_eq (a b : list nat) : list_eqb Nat.eqb a b = true -> a = b.
+Proof.
+  revert b. induction a as [|x a IH]; intros [|y b]; cbn; try congruence.
+  intros H. apply andb_true_iff in H. destruct H as [H1 H2]. apply Nat.eqb_eq in H1. f_equal; [exact H1|apply IH, H2].
+Qed.
+
+Lemma cache_get_in k ch c : cache_get k ch = Some c -> In (k, c) ch.
+Proof.
+  induction ch as [|[k' c'] ch IH]; cbn; [congruence|].
+  destruct (list_eqb Nat.eqb k k') eqn:E.
+  - intros [= ->]. apply list_eqb_nat_eq in E. subst. left; reflexivity.
+  - intros H. right. apply IH, H.
+Qed.
+
+Lemma key_ins_in x k j : In j (key_ins x k) <-> j = x \/ In j k.
+Proof.
+  induction k as [|y k IH]; cbn [key_ins].
+  - cbn. intuition.
+  - destruct (Nat.ltb_spec x y) as [Hlt|Hge]; [cbn [In]; intuition|].
+    destruct (Nat.eqb_spec x y) as [Heq|Hne].
+    + subst. cbn [In]. split; [intros H; right; exact H|intros [->|H]; [left; reflexivity|exact H]].
+    + cbn [In]. rewrite IH. intuition.
+Qed.
+
+Definition trial_post (fd : finder) (c : costs) : Prop :=
+  opt_test (f_tsize fd) (size_le c) = true \/ opt_test (f_tslices fd) (slices_ge c) = true \/
+  (f_tover fd <> None /\ over_ok fd c).
+
+Lemma opt_test_false_over fd c : opt_test (f_tover fd) (over_gt c) = false -> over_ok fd c.
+Proof. intros H t Ht. rewrite Ht in H. exact H. Qed.
+
+Lemma trial_loop_spec fd : forall oracle ch key cost ch' k c,
+  cache_ok fd ch -> entry_ok fd (key, cost) -> over_ok fd cost ->
+  trial_loop fd oracle ch key cost = Ret (ch', (k, c)) ->
+  cache_ok fd ch' /\ entry_ok fd (k, c) /\ over_ok fd c /\ trial_post fd c /\
+  (exists suffix, ch' = ch ++ suffix).
+Proof.
+  induction oracle as [|ix rest IH]; intros ch key cost ch' k c Hch Hent Hov Hret; cbn [trial_loop] in Hret.
+  - destruct (c_sd cost); discriminate.
+  - destruct (c_sd cost) as [|kv0 sd0] eqn:Esd; [discriminate|]. rewrite <- Esd in Hret.
+    destruct (zd_mem ix (c_sd cost)); cbn [negb] in Hret; [|discriminate].
+    destruct (memb ix (f_forbidden fd)) eqn:Eforb; [discriminate|]. apply memb_false in Eforb.
+    set (nkey := key_ins ix key) in *.
+    assert (Hstep : forall nc, (cache_get nkey ch = Some nc \/ remove ix cost = Some nc) -> entry_ok fd (nkey, nc)).
+    { intros nc [Hc|Hr].
+      - apply cache_get_in in Hc. unfold cache_ok in Hch. rewrite Forall_forall in Hch. apply Hch, Hc.
+      - destruct Hent as (xs & Hs & Hk & Hf). cbn [fst snd] in *. exists (xs ++ [ix]). cbn [fst snd]. split; [|split].
+        + apply (remove_seq_snoc xs ix _ cost nc Hs Hr).
+        + intros j. unfold nkey. rewrite key_ins_in, in_app_iff, Hk. cbn. intuition.
+        + intros j Hj. apply in_app_iff in Hj. destruct Hj as [Hj|[<-|[]]]; [apply Hf, Hj|exact Eforb]. }
+    destruct (cache_get nkey ch) as [nc|] eqn:Ec.
+    + assert (Hnc : entry_ok fd (nkey, nc)) by (apply Hstep; left; reflexivity).
+      destruct (opt_test (f_tover fd) (over_gt nc)) eqn:Eo.
+      { injection Hret as <- <- <-. split; [exact Hch|]. split; [exact Hent|]. split; [exact Hov|].
+        split; [|exists []; rewrite app_nil_r; reflexivity].
+        right; right. split; [|exact Hov]. destruct (f_tover fd); [congruence|discriminate]. }
+      apply opt_test_false_over in Eo.
+      destruct (opt_test (f_tslices fd) (slices_ge nc)) eqn:Es.
+      { injection Hret as <- <- <-. split; [exact Hch|]. split; [exact Hnc|]. split; [exact Eo|].
+        split; [right; left; exact Es|exists []; rewrite app_nil_r; reflexivity]. }
+      destruct (opt_test (f_tsize fd) (size_le nc)) eqn:Ez.
+      { injection Hret as <- <- <-. split; [exact Hch|]. split; [exact Hnc|]. split; [exact Eo|].
+        split; [left; exact Ez|exists []; rewrite app_nil_r; reflexivity]. }
+      apply (IH ch nkey nc ch' k c Hch Hnc Eo Hret).
+    + destruct (remove ix cost) as [nc|] eqn:Er; [|discriminate].
+      assert (Hnc : entry_ok fd (nkey, nc)) by (apply Hstep; right; reflexivity).
+      assert (Hch1 : cache_ok fd (ch ++ [(nkey, nc)])).
+      { unfold cache_ok. apply Forall_app. split; [exact Hch|]. constructor; [exact Hnc|constructor]. }
+      destruct (opt_test (f_tover fd) (over_gt nc)) eqn:Eo.
+      { injection Hret as <- <- <-. split; [exact Hch1|]. split; [exact Hent|]. split; [exact Hov|].
+        split; [|eexists; reflexivity].
+        right; right. split; [|exact Hov]. destruct (f_tover fd); [congruence|discriminate]. }
+      apply opt_test_false_over in Eo.
+      destruct (opt_test (f_tslices fd) (slices_ge nc)) eqn:Es.
+      { injection Hret as <- <- <-. split; [exact Hch1|]. split; [exact Hnc|]. split; [exact Eo|].
+        split; [right; left; exact Es|eexists; reflexivity]. }
+      destruct (opt_test (f_tsize fd) (size_le nc)) eqn:Ez.
+      { injection Hret as <- <- <-. split; [exact Hch1|]. split; [exact Hnc|]. split; [exact Eo|].
+        split; [left; exact Ez|eexists; reflexivity]. }
+      destruct (IH _ nkey nc ch' k c Hch1 Hnc Eo Hret) as (A & B & C & D & (suf & E)).
+      split; [exact A|]. split; [exact B|]. split; [exact C|]. split; [exact D|].
+      exists ((nkey, nc) :: suf). rewrite E, <- app_assoc. reflexivity.
+Qed.
+
+(* what `trial` guarantees when it returns: either a target test holds on the
+   returned cost, or it is the incoming cost that is already over the overhead limit *)
+Definition trial_post0 (fd : finder) (k : list ix) (c : costs) : Prop :=
+  trial_post fd c \/ (k = [] /\ opt_test (f_tover fd) (over_gt c) = true).
+
+Theorem trial_spec fd oracle ch ch' k c : cache_ok fd ch ->
+  trial fd oracle ch = Ret (ch', (k, c)) ->
+  cache_ok fd ch' /\ entry_ok fd (k, c) /\ trial_post0 fd k c /\ (k <> [] -> over_ok fd c) /\
+  (exists suffix, ch' = ch ++ suffix).
+Proof.
+  intros Hch Hret. unfold trial in Hret.
+  destruct (cache_get [] ch) as [cost|] eqn:Ec; [|discriminate].
+  assert (Hent : entry_ok fd ([], cost)).
+  { apply cache_get_in in Ec. unfold cache_ok in Hch. rewrite Forall_forall in Hch. apply Hch, Ec. }
+  destruct (already_satisfied fd cost) eqn:Ea.
+  - injection Hret as <- <- <-. split; [exact Hch|]. split; [exact Hent|].
+    split; [|split; [congruence|exists []; rewrite app_nil_r; reflexivity]].
+    unfold already_satisfied in Ea. apply orb_true_iff in Ea. destruct Ea as [Ea|Ea]; [apply orb_true_iff in Ea; destruct Ea as [Ea|Ea]|].
+    + left. left. exact Ea.
+    + right. split; [reflexivity|exact Ea].
+    + left. right. left. exact Ea.
+  - unfold already_satisfied in Ea. apply orb_false_iff in Ea. destruct Ea as [Ea _].
+    apply orb_false_iff in Ea. destruct Ea as [_ Ea]. apply opt_test_false_over in Ea.
+    destruct (trial_loop_spec fd oracle ch [] cost ch' k c Hch Hent Ea Hret) as (A & B & C & D & E).
+    split; [exact A|]. split; [exact B|]. split; [left; exact D|]. split; [intros _; exact C|exact E].
+Qed.
+
+(* termination: an oracle at least as long as the size dict never leaves trial stuck *)
+Lemma remove_sd_length ix c nc : remove ix c = Some nc -> S (length (c_sd nc)) = length (c_sd c).
+Proof.
+  unfold remove. destruct (zd_get ix (c_sd c)) as [d|] eqn:Ed; [|discriminate]. cbn [c_where set_nsl].
+  destruct (wh_get ix (c_where c)) as [is|]; [|discriminate]. intros [= <-].
+  cbn [c_sd set_wred set_fred set_sd].
+  assert (G : forall is c0, c_sd (fold_left (remove_at ix d) is c0) = c_sd c0).
+  { induction is0 as [|i is0 IH]; intros c0; cbn [fold_left]; [reflexivity|]. rewrite IH.
+    unfold remove_at. destruct (nth_error (c_tab c0) i); [|reflexivity].
+    destruct (memb ix (r_legs r)); reflexivity. }
+  rewrite G. cbn [c_sd set_where set_nsl]. apply zd_keys_del_length. apply zd_get_in_keys. congruence.
+Qed.
